@@ -2184,6 +2184,7 @@ class QuicConnection:
             error_code,
             final_size,
         )
+        was_finished = stream.receiver.is_finished
         try:
             event = stream.receiver.handle_reset(
                 error_code=error_code, final_size=final_size
@@ -2194,7 +2195,8 @@ class QuicConnection:
                 frame_type=frame_type,
                 reason_phrase=str(exc),
             )
-        if event is not None:
+        # A retransmitted RESET_STREAM must not signal the reset a second time.
+        if event is not None and not was_finished:
             self._events.append(event)
         self._local_max_data.used += newly_received
 
